@@ -42,7 +42,9 @@ func poolOracle(sc PoolScenario, r *PoolResult) (fs []Finding) {
 		fs = append(fs, Finding{Sig: fmt.Sprintf("%s %s op=%s", sc.Harness, clause, opTag(sc.Callers[i])), What: fmt.Sprintf("caller %d (%s): %s", i, sc.Callers[i], what), Clause: clause})
 	}
 	if r.Diverged != "" {
-		fs = append(fs, Finding{Sig: sc.Harness + " replay-divergence", What: r.Diverged})
+		// The pool iterates over Go maps on its retry path; their order cannot be controlled, so a
+		// prefix occasionally meets a different enabled set. That is the harness's limit, not a
+		// property violation: the subtree is skipped and the run is marked non-exhaustive.
 		return
 	}
 	for i := range sc.Callers {
@@ -133,6 +135,11 @@ func exploreEvents(c *rt.Ctx, sc PoolScenario, bound, maxExecs int, onExec func(
 			panic(other)
 		}
 		execs++
+		if r.Diverged != "" {
+			c.Add("n_replay_divergences", 1)
+			c.Cap("a replayed event prefix met a different enabled set (uncontrollable map iteration order inside the pool's retry path); that subtree was skipped")
+			return true
+		}
 		if !onExec(r) {
 			return false
 		}
